@@ -503,7 +503,23 @@ impl<T: Qcow2IoOps> Qcow2Dev<T> {
         let _flush_lock = self.flush_lock.lock().await;
 
         log::debug!("flush_meta: entry");
+        let res = self.__flush_meta().await;
+        if res.is_err() {
+            // something is left dirty
+            self.mark_need_flush(true);
+        }
+        log::debug!("flush_meta: exit");
+        res
+    }
+
+    async fn __flush_meta(&self) -> Qcow2Result<()> {
         loop {
+            // Clear the flag before examining the caches, not after: an
+            // operation that dirties meta data while this pass is waiting
+            // for IO sets it again, and must not be overridden at the end
+            // of a pass which hasn't seen that update.
+            self.mark_need_flush(false);
+
             // refcount is usually small size & continuous, so simply
             // flush all
             self.flush_refcount().await?;
@@ -517,11 +533,9 @@ impl<T: Qcow2IoOps> Qcow2Dev<T> {
                 .flush_meta_generic(l1, &self.l2cache, |off| self.l2_slice_key_of_l1_off(off))
                 .await?;
             if done {
-                self.mark_need_flush(false);
                 break;
             }
         }
-        log::debug!("flush_meta: exit");
         Ok(())
     }
 }
